@@ -47,7 +47,9 @@ UpVals == {"up", "up2"}
 
 Chains == {"timeout", "flush"}      \* options.timeout (http.TimeoutHandler) | options.flush_interval (none)
 Ovrs   == {"none", "xcto", "xfo", "xss", "hsts", "other"}
-Xfps   == {"none", "http", "https", "upper", "list", "lines", "junk"}   \* list: one comma-joined value; lines: two header lines, the first "https"
+Xfps   == {"none", "http", "https", "upper", "list", "listhttp", "lines", "junk"}
+\* list: one comma-joined value that begins with https; listhttp: one that begins with http (the client's own leg, as
+\* in X-Forwarded-For); lines: two header lines, the first "https"
 UpClasses == {"absent", "set", "dup", "case"}
 Statuses == {200, 404, 500}
 
@@ -177,7 +179,7 @@ R_OverrideNotUpstream(c, o) ==
 R_HSTSOwn(c, o) ==
    (c.secure /\ c.ovr # "hsts") => o.hdr["HSTS"] = <<"own">>
 \* "a plain-HTTP request is redirected to https on the same host with the same (decoded) path and query"
-PlainHTTP(c) == c.xfp \in {"none", "http", "junk"}
+PlainHTTP(c) == c.xfp \in {"none", "http", "junk", "listhttp"}
 \* (the statement says "redirected", not which redirect: 301 today; 302 / 303 / 307 / 308 are redirects too)
 RedirectStatuses == {301, 302, 303, 307, 308}
 R_HTTPSUpgrade(c, o) ==
